@@ -16,6 +16,7 @@ A spec is a JSON list of items
    "params": [["N","Int"],["max_parts","Int"]],  free names of the expression, with Lean types
    "ret": "Int",                               Lean type of the result
    "rename": {"self.N": "N", "mpi.size": "size"}  optional: dotted names -> parameter
+                                               ("x.max()": "x_max" names a zero-argument method call)
   }
 
 and the generated file contains, for each item, the source text as a comment
@@ -186,6 +187,12 @@ class Tr:
         if isinstance(n, ast.Call):
             f = dotted(n.func)
             args = n.args
+            # a zero-argument method call declared as a parameter, e.g.
+            # "rename": {"edges.max()": "edges_max"}
+            if f is not None and not args and not n.keywords and (f + "()") in self.rename:
+                d2 = self.rename[f + "()"]
+                if d2 in self.types:
+                    return d2, ("Rat" if self.types[d2] == "Rat" else "Int")
             if f in ("int",) and len(args) == 1:
                 inner = args[0]
                 # int(np.ceil(a / b))
